@@ -73,6 +73,7 @@ class Registry:
         self.src = src
         self.contracts: dict[str, Contract] = {}
         self.order: list[Contract] = []
+        self.extra: list[Contract] = []
         self.spec_mods = []
 
     def lookup(self, target):
@@ -162,7 +163,10 @@ class Registry:
                         c.regions[b.name[len("region_"):]] = Clause(b.name, b, cprops)
                     elif b.name == "setup":
                         c.setup = b
-            self.contracts[target] = c
+            if target in self.contracts and not c.deductive:
+                self.extra.append(c)          # additional bounded-only contract on an already contracted target
+            else:
+                self.contracts[target] = c
             for t in c.abstract_for:
                 self.contracts.setdefault(t, c)
             self.order.append(c)
